@@ -71,6 +71,30 @@ func subrequestProblems(logs []fake.LoggedRequest) string {
 	return ""
 }
 
+// missingVariables: every client variable a sub-request uses and the client sent a value for — null included —
+// accompanies that sub-request.
+func missingVariables(op gen.GenOp, logs []fake.LoggedRequest) string {
+	for _, l := range logs {
+		doc, err := parser.ParseQuery(&ast.Source{Input: l.Query})
+		if err != nil || len(doc.Operations) != 1 {
+			continue
+		}
+		for _, vd := range doc.Operations[0].VariableDefinitions {
+			if vd.Variable == "id" {
+				continue
+			}
+			if _, sent := op.Variables[vd.Variable]; !sent {
+				continue
+			}
+			if _, has := l.Variables[vd.Variable]; !has {
+				return fmt.Sprintf("sub-request to %s declares and uses $%s, the client sent %s for it, but the sub-request carries no value for it  --  %s  variables %s",
+					l.URL, vd.Variable, fake.CanonJSON(op.Variables[vd.Variable]), shortStr(l.Query, 200), fake.CanonJSON(l.Variables))
+			}
+		}
+	}
+	return ""
+}
+
 func stepsCoq(r *Rig, op gen.GenOp, logs []fake.LoggedRequest) []string {
 	doc, errs := gqlparser.LoadQuery(r.Merged, op.Query)
 	if errs != nil {
@@ -248,7 +272,9 @@ func driveC02(seed int64, tier, out, replay string) {
 		if c.Op != nil {
 			op = *c.Op
 		} else {
-			op = gen.Operation(hx.NewRand(c.OpSeed), r.Merged, opOptionsFor("inD01", r.World))
+			oo := opOptionsFor("inD01", r.World)
+			oo.NullVars = true
+			op = gen.Operation(hx.NewRand(c.OpSeed), r.Merged, oo)
 			c.Op = &op
 		}
 		hx.Current(out, idx, c)
@@ -258,6 +284,9 @@ func driveC02(seed int64, tier, out, replay string) {
 		}
 		logs := r.Logs()
 		w2 := subrequestProblems(logs)
+		if w2 == "" {
+			w2 = missingVariables(op, logs)
+		}
 		if w2 != "" {
 			what = w2
 		} else if what != "" {
